@@ -19,8 +19,6 @@ use regex::Regex;
 use std::fmt;
 use crate::chemistry::*;
 
-// FIX: DECIMAL_SEPARATOR should be set by env, or maybe language
-const DECIMAL_SEPARATOR: &str = ".";
 pub const CHANGED_ATTR: &str = "data-changed";
 pub const ADDED_ATTR_VALUE: &str = "added";
 pub const INTENT_ATTR: &str = "intent";
@@ -3613,22 +3611,24 @@ impl CanonicalizeContext {
 			return Ok( false );
 		};
 
-		if !is_integer_part_ok(integer_part) {
+		// a number is an integer if it has none of the (locale dependent) decimal separators
+		let decimal_separator = &self.patterns.decimal_separator;
+		if !is_integer_part_ok(integer_part, decimal_separator) {
 			return Ok( false );
 		}
 		
 		if right_child_name == "mfrac" {
-			return Ok( is_mfrac_ok(&right_child) );
+			return Ok( is_mfrac_ok(&right_child, decimal_separator) );
 		}
 
 		return is_linear_fraction(self, fraction_children);
 
 
-		fn is_int<'a>(integer_part: &'a Element<'a>) -> bool {
-			return name(integer_part) == "mn"  && !as_text(*integer_part).contains(DECIMAL_SEPARATOR);
+		fn is_int<'a>(integer_part: &'a Element<'a>, decimal_separator: &Regex) -> bool {
+			return name(integer_part) == "mn"  && !decimal_separator.is_match(as_text(*integer_part));
 		}
 
-		fn is_integer_part_ok<'a>(integer_part: &'a Element<'a>) -> bool {
+		fn is_integer_part_ok<'a>(integer_part: &'a Element<'a>, decimal_separator: &Regex) -> bool {
 			// integer part must be either 'n' or '-n' (in an mrow)
 			let integer_part_name = name(integer_part);
 			if integer_part_name == "mrow" {
@@ -3637,26 +3637,26 @@ impl CanonicalizeContext {
 				   name(&as_element(children[0])) == "mo" &&
 				   as_text(as_element(children[0])) == "-" {
 					let integer_part = as_element(children[1]);
-					return is_int(&integer_part);
+					return is_int(&integer_part, decimal_separator);
 				}
 				return false;
 			};
 		
-			return is_int(integer_part);
+			return is_int(integer_part, decimal_separator);
 		}
 
-		fn is_mfrac_ok<'a>(fraction_part: &'a Element<'a>) -> bool {
+		fn is_mfrac_ok<'a>(fraction_part: &'a Element<'a>, decimal_separator: &Regex) -> bool {
 			// fraction_part needs to have integer numerator and denominator (already tested it is a frac)
 			let fraction_children = fraction_part.children();
 			if fraction_children.len() != 2 {
 				return false;
 			}
 			let numerator = as_element(fraction_children[0]);
-			if name(&numerator) != "mn" || as_text(numerator).contains(DECIMAL_SEPARATOR) {
+			if !is_int(&numerator, decimal_separator) {
 				return false;
 			}
 			let denominator = as_element(fraction_children[1]);
-			return is_int(&denominator);
+			return is_int(&denominator, decimal_separator);
 		}
 
 		fn is_linear_fraction(canonicalize: &CanonicalizeContext, fraction_children: &[ChildOfElement]) -> Result<bool> {
@@ -3675,7 +3675,8 @@ impl CanonicalizeContext {
 			// the length has been checked
 			assert!(fraction_children.len() >= 3);
 			
-			if !is_int(&first_child) {
+			let decimal_separator = &canonicalize.patterns.decimal_separator;
+			if !is_int(&first_child, decimal_separator) {
 				return Ok( false );
 			}
 			// canonicalize_mrows() is only a test here: on a leaf it normalizes the text in place, but on anything else it
@@ -3686,7 +3687,7 @@ impl CanonicalizeContext {
 			let slash_part = canonicalize.canonicalize_mrows(as_element(fraction_children[1]))?;
 			if name(&slash_part) == "mo" && as_text(slash_part) == "/" {
 				let denom = canonicalize.canonicalize_mrows(as_element(fraction_children[2]))?;
-				return Ok( is_int(&denom) );
+				return Ok( is_int(&denom, decimal_separator) );
 			}
 			return Ok( false );
 		}
